@@ -397,12 +397,26 @@ static const uint8_t *gen_key(vrng_t *r, gedit_t *g, size_t *lenp) {
   return p;
 }
 
+/* Every file entry is several heap objects on both sides (real structure and reference
+ * decoder) and each big edit is decoded ~25 times; under ASan that is ~0.5 s per 5000-file
+ * case.  The sanitizer build therefore uses 600..1200 files for the largest class (the
+ * rel build does 1000..5000). */
+#if defined(__SANITIZE_ADDRESS__)
+#define BIG_MIN 600
+#define BIG_SPAN 601
+#define BIG_MAX 1200
+#else
+#define BIG_MIN 1000
+#define BIG_SPAN 4001
+#define BIG_MAX 5000
+#endif
+
 static size_t gen_count(vrng_t *r, int sc) {
   switch (sc) {
     case 0: return 1 + vr_uniform(r, 3);
     case 1: return 1 + vr_uniform(r, 30);
     case 2: return 20 + vr_uniform(r, 281);
-    default: return vr_uniform(r, 8) == 0 ? 5000 : 1000 + vr_uniform(r, 4001);
+    default: return vr_uniform(r, 8) == 0 ? BIG_MAX : BIG_MIN + vr_uniform(r, BIG_SPAN);
   }
 }
 
